@@ -614,7 +614,37 @@ def rule_r7(repo):
         rr.instance('Decoder.%s: one-bit difference rule present: %s' % (m, hit))
         if not hit:
             rr.fail('Decoder.%s:one-bit' % m, fi.where, 'no path treats a 1-bit difference of value 1 as missing')
-    rr.require_floor(14)
+    # code / flag columns: the reconstructed value min + diff is missing when it is all ones of the element width (> 1 bit)
+    m = 'process_codeflag_compressed'
+    fi, recs, _ = run_primitive(repo, 'Decoder', m)
+    seen_none = seen_val = 0
+    for r in recs:
+        if not r.ok or len(r.io()) != 3:
+            continue
+        b = r.bindings()
+        if ('io2' in b and b['io2'] is None) or (b.get('io2') == 1 and b.get('io1') == 1):
+            continue
+        dec = dict((e[1], e[2]) for e in r.events if e[0] == 'decide')
+        vals = [e[2] for e in r.events if e[0] == 'append' and e[1] == 'decoded_values@subset']
+        wide = dec.get('cmpGt(D.nbits,1)')
+        allones = None
+        for k, v in dec.items():
+            if k.startswith('cmpEq(') and 'MISSING(D.nbits)' in k and ('add(io0,io2)' in k or 'add(io0,1)' in k):
+                allones = v
+        if vals == [None]:
+            seen_none += 1
+            if not (wide and allones):
+                rr.fail('Decoder.%s:recheck-guard' % m, fi.where, 'path [%s] turns a reconstructed value into missing without establishing that the element is wider '
+                        'than one bit and that minimum + difference is all ones of the element width' % r.desc())
+        elif vals:
+            seen_val += 1
+            if wide and allones:
+                rr.fail('Decoder.%s:recheck' % m, fi.where, 'path [%s] keeps a value that is all ones of the element width' % r.desc())
+    rr.instance('Decoder.%s: all-ones re-check of minimum + difference (%d missing / %d value paths)' % (m, seen_none, seen_val))
+    if seen_none == 0:
+        rr.fail('Decoder.%s:recheck' % m, fi.where, 'a code/flag value reconstructed as minimum + difference is never compared with the all-ones pattern of '
+                'the element width: a 4-bit code table value of 15 would be returned instead of missing')
+    rr.require_floor(15)
     return rr
 
 
@@ -736,15 +766,15 @@ def rule_r9(repo, tier):
 
 
 def run(repo, check):
-    check.add(rule_r1(repo))
-    check.add(rule_r2(repo))
-    check.add(rule_r3(repo))
-    check.add(rule_r4(repo, check.tier))
-    check.add(rule_r5(repo))
-    check.add(rule_r6(repo))
-    check.add(rule_r7(repo))
-    check.add(rule_r8(repo))
-    check.add(rule_r9(repo, check.tier))
+    check.run_rule(rule_r1, repo)
+    check.run_rule(rule_r2, repo)
+    check.run_rule(rule_r3, repo)
+    check.run_rule(rule_r4, repo, check.tier)
+    check.run_rule(rule_r5, repo)
+    check.run_rule(rule_r6, repo)
+    check.run_rule(rule_r7, repo)
+    check.run_rule(rule_r8, repo)
+    check.run_rule(rule_r9, repo, check.tier)
     check.assumptions = ['bitstring reads the requested number of bits MSB first (trusted base)',
                          'Table B contents (width, scale, reference of each element) are data, not decided here',
                          'the frozen operator table (DESIGN appendix A.3) restates FM-94 regulation 94.5.3 / Table C']
